@@ -462,4 +462,214 @@ theorem cutByOrder_refines (pids : List Int) (r : Rose) (h : IsTree r pids) (m :
   simp only
   rw [run_tree h]
 
+/-! ## `CutByType.__call__` : the `leave` closure over the `removals` SET -/
+
+theorem mem_select {α : Type} (a : List α) (m : List Bool) (x : α) :
+    x ∈ select a m ↔ ∃ k : Nat, a[k]? = some x ∧ m[k]? = some true := by
+  simp only [select, List.mem_filterMap]
+  constructor
+  · rintro ⟨p, hp, hf⟩
+    obtain ⟨k, hk⟩ := List.mem_iff_getElem?.1 hp
+    rw [List.getElem?_zip_eq_some] at hk
+    by_cases h2 : p.2 = true
+    · simp only [h2, if_true, Option.some.injEq] at hf
+      exact ⟨k, by rw [hk.1, hf], by rw [hk.2, h2]⟩
+    · simp [h2] at hf
+  · rintro ⟨k, h1, h2⟩
+    refine ⟨(x, true), List.mem_iff_getElem?.2 ⟨k, ?_⟩, by simp⟩
+    rw [List.getElem?_zip_eq_some]
+    exact ⟨h1, h2⟩
+
+theorem mem_foldl_add (l : List Int) : ∀ (acc : List Int) (x : Int), x ∈ l.foldl Py.Set.add acc ↔ x ∈ acc ∨ x ∈ l := by
+  induction l with
+  | nil => intro acc x; simp
+  | cons a l ih =>
+    intro acc x
+    simp only [List.foldl_cons, ih, Py.Set.add]
+    by_cases ha : acc.contains a = true
+    · have ha' : a ∈ acc := by simpa using ha
+      simp only [ha, if_true, List.mem_cons]
+      constructor
+      · rintro (h | h)
+        · exact Or.inl h
+        · exact Or.inr (Or.inr h)
+      · rintro (h | h | h)
+        · exact Or.inl h
+        · exact Or.inl (h ▸ ha')
+        · exact Or.inr h
+    · simp only [ha, Bool.false_eq_true, if_false, List.mem_append, List.mem_cons, List.not_mem_nil, or_false]
+      constructor
+      · rintro ((h | h) | h)
+        · exact Or.inl h
+        · exact Or.inr (Or.inl h)
+        · exact Or.inr (Or.inr h)
+      · rintro (h | h | h)
+        · exact Or.inl (Or.inl h)
+        · exact Or.inl (Or.inr h)
+        · exact Or.inr h
+
+theorem mem_ofList (l : List Int) (x : Int) : x ∈ Py.Set.ofList l ↔ x ∈ l := by
+  simp [Py.Set.ofList, mem_foldl_add]
+
+/-- what the translated closure `leave` computes on a node of the table: its state is (the `removals` set, the id column) -/
+def typeLeaveL (s : List Int × List Int) (n : Int) (kc : List Bool) : (List Int × List Int) × Bool :=
+  let i := s.2.getD n.toNat 0
+  let rem' := if s.1.contains i && kc.any id then s.1.filter (fun y => y ≠ i) else s.1
+  ((rem', s.2), !rem'.contains i)
+
+theorem typeLeave_closure (s : List Int × List Int) (n : Int) (kc : List Bool) (hn : 0 ≤ n ∧ n.toNat < s.2.length) :
+    type_leave s n kc = some (typeLeaveL s n kc) := by
+  have e : n = ((n.toNat : Nat) : Int) := by omega
+  have h0 : Py.idx s.2 n = some (s.2[n.toNat]?.getD 0) := by
+    have h1 : Py.idx s.2 ((n.toNat : Nat) : Int) = s.2[n.toNat]? := Py.idx_nat _ _ hn.2
+    rw [← e] at h1
+    rw [h1]; simp [hn.2]
+  by_cases hc : s.2[n.toNat]?.getD 0 ∈ s.1
+  · by_cases ha : true ∈ kc
+    · simp [type_leave, type_leave.body, Py.seq, Py.bind, h0, Py.finish, typeLeaveL, Py.skip, hc, ha, Py.any, Py.Set.remove]
+    · simp [type_leave, type_leave.body, Py.seq, Py.bind, h0, Py.finish, typeLeaveL, Py.skip, hc, ha, Py.any, Py.Set.remove]
+  · simp [type_leave, type_leave.body, Py.seq, Py.bind, h0, Py.finish, typeLeaveL, Py.skip, hc, Py.any, Py.Set.remove]
+
+/-- a set of node ids ↦ the model's membership function -/
+def absSet (l : List Int) : Int → Bool := fun i => l.contains i
+
+/-- invariant of the closure state: the id column is that of a `Tree` object, the members of `removals` are node ids -/
+def TypeInv (n : Nat) (s : List Int × List Int) : Prop := s.2 = rangeI n ∧ ∀ i ∈ s.1, 0 ≤ i ∧ i.toNat < n
+
+theorem typeLeaveL_step (n : Nat) (s : List Int × List Int) (j : Int) (kc : List Bool) (hP : TypeInv n s) (hj : 0 ≤ j ∧ j.toNat < n) :
+    typeLeave (absSet s.1) j kc = (absSet (typeLeaveL s j kc).1.1, (typeLeaveL s j kc).2) ∧ TypeInv n (typeLeaveL s j kc).1 := by
+  have hg : s.2[j.toNat]?.getD 0 = j := by
+    have := rangeI_getD n j hj
+    rw [List.getD_eq_getElem?_getD] at this
+    rw [hP.1]; exact this
+  by_cases hc : j ∈ s.1
+  · by_cases ha : true ∈ kc
+    · refine ⟨?_, hP.1, ?_⟩
+      · have hf : absSet (s.1.filter (fun y => y ≠ j)) = upd (absSet s.1) j false := by
+          funext x
+          by_cases hx : x = j
+          · simp [absSet, upd, hx]
+          · simp [absSet, upd, hx]
+        simp only [typeLeave, typeLeaveL, List.getD_eq_getElem?_getD, hg]
+        have h1 : absSet s.1 j = true := by simpa [absSet] using hc
+        have h2 : kc.any id = true := by simpa using ha
+        have h3 : s.1.contains j = true := by simpa using hc
+        simp only [h1, h2, h3, Bool.and_self, if_true, hf]
+        simp [absSet, upd]
+      · intro i hi
+        simp only [typeLeaveL, List.getD_eq_getElem?_getD, hg] at hi
+        have h3 : s.1.contains j = true := by simpa using hc
+        have h2 : kc.any id = true := by simpa using ha
+        simp only [h3, h2, Bool.and_self, if_true] at hi
+        exact hP.2 i (List.mem_filter.1 hi).1
+    · have h2 : kc.any id = false := by simpa using ha
+      refine ⟨?_, hP.1, ?_⟩
+      · simp only [typeLeave, typeLeaveL, List.getD_eq_getElem?_getD, hg, h2, Bool.and_false, Bool.false_eq_true, if_false]
+        try simp [absSet]
+      · simpa [typeLeaveL, ha] using hP.2
+  · have h3 : s.1.contains j = false := by simpa using hc
+    have h1 : absSet s.1 j = false := by simpa [absSet] using hc
+    refine ⟨?_, hP.1, ?_⟩
+    · simp only [typeLeave, typeLeaveL, List.getD_eq_getElem?_getD, hg, h1, h3, Bool.false_and, Bool.false_eq_true, if_false]
+      try simp [absSet, h3]
+    · simpa [typeLeaveL, List.getD_eq_getElem?_getD, hg, hc] using hP.2
+
+theorem toSubtree_congr (pids : List Int) (a b : List Int) (hab : ∀ i, a.contains i = b.contains i) : toSubtree pids a = toSubtree pids b := by
+  unfold toSubtree
+  have : (fun i => a.contains i) = (fun i => b.contains i) := funext hab
+  simp only [this]
+
+/-- **`CutByType.__call__` as translated IS the model `Sub.cutByType`**: on every tree table with a type column of the same length, the set
+`set(x.id()[x.type() != self.type])`, the generated closure `leave` (which takes a node out of the set when one of its children is kept) run
+by the generated traversal, and the generated `to_subtree` return the model's table — `C06.cutByType_kept` characterises it.  Nothing raises
+(in particular `removals.remove` never meets an absent element); fuel `2·|tree| + 1` suffices. -/
+theorem cutByType_refines (pids types : List Int) (ty : Int) (r : Rose) (h : IsTree r pids) (hl : types.length = pids.length) (F : Nat) :
+    cut_by_type (2 * r.size + F + 1) (rangeI pids.length) pids types ty =
+      (cutByType pids types ty).map (fun t => ((Py.range (t.mapping.length : Int), t.newPid), t.mapping)) := by
+  have hin : ∀ j ∈ r.ids, 0 ≤ j ∧ j.toNat < pids.length := fun j hj => (isTree_mem h j).1 hj
+  -- the initial set
+  have hmem0 : ∀ i, i ∈ Py.Set.ofList (select (rangeI pids.length) (neMask types ty)) ↔
+      (0 ≤ i ∧ i.toNat < pids.length) ∧ types.getD i.toNat 0 ≠ ty := by
+    intro i
+    rw [mem_ofList, mem_select]
+    constructor
+    · rintro ⟨k, h1, h2⟩
+      have hk : k < pids.length := by
+        by_cases hk : k < pids.length
+        · exact hk
+        · have : (rangeI pids.length)[k]? = none := by simp [rangeI]; omega
+          rw [this] at h1; exact absurd h1 (by simp)
+      rw [rangeI_getElem? _ _ hk] at h1
+      simp only [Option.some.injEq] at h1
+      subst h1
+      simp only [neMask, List.getElem?_map] at h2
+      have hk2 : k < types.length := by omega
+      rw [List.getElem?_eq_getElem hk2] at h2
+      simp only [Option.map_some, Option.some.injEq, decide_eq_true_eq] at h2
+      refine ⟨⟨by omega, by simpa using hk⟩, ?_⟩
+      simp only [Int.toNat_natCast, List.getD_eq_getElem?_getD, List.getElem?_eq_getElem hk2, Option.getD_some]
+      exact h2
+    · rintro ⟨⟨h0, h1⟩, h2⟩
+      refine ⟨i.toNat, ?_, ?_⟩
+      · rw [rangeI_getElem? _ _ h1]; simp; omega
+      · have hk2 : i.toNat < types.length := by omega
+        simp only [List.getD_eq_getElem?_getD, List.getElem?_eq_getElem hk2, Option.getD_some] at h2
+        simp only [neMask, List.getElem?_map, List.getElem?_eq_getElem hk2, Option.map_some, Option.some.injEq, decide_eq_true_eq]
+        exact h2
+  generalize hrem0 : Py.Set.ofList (select (rangeI pids.length) (neMask types ty)) = rem0 at hmem0
+  have hP0 : TypeInv pids.length (rem0, rangeI pids.length) := ⟨rfl, fun i hi => ((hmem0 i).1 hi).1⟩
+  have habs0 : absSet rem0 =
+      fun i => decide (0 ≤ i) && decide (i.toNat < pids.length) && (types.getD i.toNat 0 != ty) := by
+    funext i
+    by_cases hi : i ∈ rem0
+    · have := (hmem0 i).1 hi
+      have h2 := this.2
+      rw [List.getD_eq_getElem?_getD] at h2
+      simp [absSet, hi, this.1.1, this.1.2, h2]
+    · have hn : ¬ ((0 ≤ i ∧ i.toNat < pids.length) ∧ types.getD i.toNat 0 ≠ ty) := fun c => hi ((hmem0 i).2 c)
+      simp only [absSet, List.contains_eq_mem, hi, decide_false]
+      symm
+      by_cases h0 : 0 ≤ i
+      · by_cases h1 : i.toNat < pids.length
+        · have : types.getD i.toNat 0 = ty := by
+            by_cases c : types.getD i.toNat 0 = ty
+            · exact c
+            · exact absurd ⟨⟨h0, h1⟩, c⟩ hn
+          rw [List.getD_eq_getElem?_getD] at this
+          simp [this]
+        · simp [h1]
+      · simp [h0]
+  have hcall := RefineClosures.traverse_closures_on (S := List Int × List Int) (T := Unit) (K := Bool)
+    (TypeInv pids.length) (fun j => 0 ≤ j ∧ j.toNat < pids.length)
+    Py.noEnter type_leave Sub.noEnter typeLeaveL
+    (fun s n pv hp _ => ⟨rfl, hp⟩)
+    (fun s n ks hp hn => ⟨typeLeave_closure s n ks (by rw [hp.1]; simpa [rangeI] using hn), (typeLeaveL_step _ s n ks hp hn).2⟩)
+    (rangeI pids.length) pids r h.1 (rem0, rangeI pids.length) hP0 hin F
+  obtain ⟨e2, p2⟩ := RefineClosures.spec_abs (S := List Int × List Int) (S' := Int → Bool) (T := Unit) (K := Bool)
+    (fun s => absSet s.1) (TypeInv pids.length) (fun j => 0 ≤ j ∧ j.toNat < pids.length)
+    Sub.noEnter typeLeaveL Sub.noEnter typeLeave
+    (fun s n pv hp _ => ⟨rfl, hp⟩)
+    (fun s n ks hp hn => typeLeaveL_step _ s n ks hp hn)
+    r none (rem0, rangeI pids.length) hP0 hin
+  rw [h.2.2.1] at hcall
+  simp only at e2
+  -- the model
+  have hmodel : cutByType pids types ty =
+      toSubtree pids ((rangeI pids.length).filter (absSet (spec Sub.noEnter typeLeaveL r none (rem0, rangeI pids.length)).1.1)) := by
+    unfold cutByType
+    simp only
+    rw [run_tree h, ← habs0, e2]
+  generalize spec Sub.noEnter typeLeaveL r none (rem0, rangeI pids.length) = res at hcall p2 hmodel
+  have hcongr : toSubtree pids ((rangeI pids.length).filter (absSet res.1.1)) = toSubtree pids res.1.1 := by
+    apply toSubtree_congr
+    intro i
+    by_cases hi : i ∈ res.1.1
+    · have := (mem_rangeI pids.length i).2 (p2.2 i hi)
+      simp [absSet, hi, this]
+    · simp [absSet, hi]
+  have hsub := toSubtree_refines pids r h res.1.1 p2.2 F
+  rw [hmodel, hcongr]
+  simp only [cut_by_type, cut_by_type.body, Py.seq, Py.bind, hrem0, hcall, p2.1, hsub]
+  cases toSubtree pids res.1.1 <;> simp [Py.finish]
+
 end RefineCut
